@@ -3,8 +3,6 @@ package mon
 import (
 	"fmt"
 	"math"
-	"os"
-	"path/filepath"
 	"reflect"
 	"sort"
 	"strings"
@@ -694,8 +692,6 @@ func c16Case(c *core.Case) {
 
 	// hclsimple by file name (only for the label-free types)
 	if !hasLabels && gen.Chance(r, 0.2) {
-		dir := filepath.Join(os.TempDir(), fmt.Sprintf("c16-%d", os.Getpid()))
-		os.MkdirAll(dir, 0o755)
 		for _, ext := range []string{".hcl", ".json"} {
 			content := src
 			if ext == ".json" {
